@@ -110,6 +110,7 @@ package aucoalesce
 // is neither PARENT nor UNKNOWN.
 //@ loop 0 invariant path == event.Paths[pathIndex]
 //@ witness[C09] isNil(result0) ==> exists j int :: lo(event.Paths) + pathIndex <= j && j < hi(event.Paths) && path == at(event.Paths, j)
+//@ witness[C09] isNil(result0) ==> path == event.Paths[pathIndex] || (path["nametype"] != "PARENT" && path["nametype"] != "UNKNOWN")
 //@ witness[C09] isNil(result0) && "name" in path ==> event.File.Path == path["name"] && event.Summary.Object.Primary == path["name"]
 //@ witness[C09] isNil(result0) && "inode" in path ==> event.File.Inode == path["inode"]
 //@ witness[C09] isNil(result0) && "rdev" in path ==> event.File.Device == path["rdev"]
@@ -124,6 +125,7 @@ package aucoalesce
 //@ witness[C09,objtype] isNil(result0) && "mode" in path && strUval(path["mode"], 8) < 65536 && (strUval(path["mode"], 8) / 4096) % 16 == 10 ==> event.Summary.Object.Type == "symlink"
 //@ witness[C09,objtype] isNil(result0) && "mode" in path && strUval(path["mode"], 8) < 65536 && (strUval(path["mode"], 8) / 4096) % 16 == 12 ==> event.Summary.Object.Type == "socket"
 // (the same facts as invariants of the last loop, which only adds SELinux labels to the fresh File)
+//@ loop 1 invariant path == event.Paths[pathIndex] || (path["nametype"] != "PARENT" && path["nametype"] != "UNKNOWN")
 //@ loop 1 invariant exists j int :: lo(event.Paths) + pathIndex <= j && j < hi(event.Paths) && path == at(event.Paths, j)
 //@ loop 1 invariant[C09] "name" in path ==> event.File.Path == path["name"] && event.Summary.Object.Primary == path["name"]
 //@ loop 1 invariant[C09] "inode" in path ==> event.File.Inode == path["inode"]
